@@ -378,6 +378,9 @@ def _frozen_spec(kinds):
             par = lambda tag: ex.make(f"{p}.{tag}", _PARAM, f"{p}.{tag}")       # noqa: E731
             if k == "PSP":
                 items.append(ex.alloc(Obj("PhaseShifter", (("mode", z3.Int(f"{p}.mode")), ("phi", par("phi")))), p))
+            elif k == "PSP@0":
+                # a second phase shifter bound to the SAME Parameter object as element 0
+                items.append(ex.alloc(Obj("PhaseShifter", (("mode", z3.Int(f"{p}.mode")), ("phi", ex.heap[items[0].id].get("phi")))), p))
             elif k == "LOSSP":
                 items.append(ex.alloc(Obj("Loss", (("mode", z3.Int(f"{p}.mode")), ("loss", par("loss")))), p))
             elif k == "BSP":
@@ -576,3 +579,129 @@ EXT_HERALDS = Contract(
 )
 EXT_HERALDS.no_callee = True
 CONTRACTS += [INPUT_MODES, HERALDS, EXT_HERALDS]
+
+
+UNPACK_GROUPS = Contract(
+    target=f"{CIRC}:Circuit.unpack_groups",
+    types={"self": _circuit_with_spec((G("PSP", G("BSP")), "PS"))},
+    requires=[],
+    modifies=["self.__internal_modes", "self.__external_in_heralds", "self.__external_out_heralds", "self.__circuit_spec"],
+    ensures={
+        "no_group_remains": "len(self.__circuit_spec) == 3 and isinstance(self.__circuit_spec[0], PhaseShifter) and isinstance(self.__circuit_spec[1], BeamSplitter) and "
+                            "isinstance(self.__circuit_spec[2], PhaseShifter)",
+        # the heralds of the circuit are the same as before (as maps); with the groups gone every herald is an external one and no mode is internal
+        "heralds_unchanged": "self.__n_modes == old(self.__n_modes) and " + _same_dict("self.__in_heralds", "old(self.__in_heralds)") + " and " +
+                             _same_dict("self.__out_heralds", "old(self.__out_heralds)"),
+        "all_heralds_external": "len(self.__internal_modes) == 0 and " + _same_dict("self.__external_in_heralds", "self.__in_heralds") + " and " +
+                                _same_dict("self.__external_out_heralds", "self.__out_heralds"),
+    },
+    raises={}, props=["C09"],
+)
+UNPACK_GROUPS.no_callee = True
+UNPACK_GROUPS.label = "nested groups"
+CONTRACTS += [UNPACK_GROUPS]
+
+
+
+ALL_PARAMS = Contract(
+    target=f"{CIRC}:Circuit.get_all_params",
+    types={"self": _circuit_with_spec(("PSP", "BSP", "PS", "PSP@0", G("LOSSP", G("PSP"))))},
+    requires=[], modifies=[],
+    ensures={
+        # every Parameter object the circuit is bound to - at top level and at any depth of grouping - exactly once (by identity, whatever values they
+        # hold at the moment), in order of first use; plain values contribute nothing
+        "each_parameter_once": "len(result) == 4 and result[0] is self.__circuit_spec[0].phi and result[1] is self.__circuit_spec[1].reflectivity and "
+                               "result[2] is self.__circuit_spec[4].circuit_spec[0].loss and result[3] is self.__circuit_spec[4].circuit_spec[1].circuit_spec[0].phi",
+        "a_new_list": "fresh_ref(result)",
+    },
+    raises={}, props=["C10"],
+    inline=["unpack_circuit_spec"],
+)
+ALL_PARAMS.no_callee = True
+ALL_PARAMS.label = "parameters at top level, shared, and inside nested groups"
+CONTRACTS += [ALL_PARAMS]
+
+
+
+# the rewriting METHODS of Circuit: the spec is replaced by the rewritten deep copy, in which every Parameter is still the user's object (C10: parameters stay
+# live through rewrites), and nothing else of the circuit changes
+def _far_param_spec(ex, name):
+    import z3
+    from vf.pyvc.values import CList, Obj
+    par = lambda tag: ex.make(f"{name}.{tag}", _PARAM, f"{name}.{tag}")       # noqa: E731
+    ps = ex.alloc(Obj("PhaseShifter", (("mode", z3.Int(f"{name}[0].mode")), ("phi", par("phi")))), f"{name}[0]")
+    bs = ex.alloc(Obj("BeamSplitter", (("mode_1", z3.Int(f"{name}[1].mode_1")), ("mode_2", z3.Int(f"{name}[1].mode_2")), ("reflectivity", par("reflectivity")), ("convention", "H"))), f"{name}[1]")
+    return ex.alloc(CList((ps, bs)), name)
+
+
+def _circuit_far(ex, name):
+    import z3
+    from vf.pyvc.values import Obj
+    spec = _far_param_spec(ex, f"{name}.__circuit_spec")
+    f = lambda a, t: ex.make(f"{name}.{a}", t, f"{name}.{a}")       # noqa: E731
+    return ex.alloc(Obj("Circuit", (("_Circuit__n_modes", z3.Int(f"{name}.__n_modes")), ("_Circuit__internal_modes", f("__internal_modes", "list[int]")),
+                                     ("_Circuit__in_heralds", f("__in_heralds", "dict[int,int]")), ("_Circuit__out_heralds", f("__out_heralds", "dict[int,int]")),
+                                     ("_Circuit__external_in_heralds", f("__external_in_heralds", "dict[int,int]")),
+                                     ("_Circuit__external_out_heralds", f("__external_out_heralds", "dict[int,int]")), ("_Circuit__circuit_spec", spec))), name)
+
+
+_circuit_far.label = "Circuit [PS(Parameter), BS(Parameter) two modes apart]"
+_S = "self.__circuit_spec"
+REMOVE_NONADJ = Contract(
+    target=f"{CIRC}:Circuit.remove_non_adjacent_bs",
+    types={"self": _circuit_far},
+    requires=[f"{_S}[1].mode_1 >= 0", f"{_S}[1].mode_2 == {_S}[1].mode_1 + 2", f"0 <= {_S}[1].reflectivity._Parameter__value and {_S}[1].reflectivity._Parameter__value <= 1"],
+    modifies=["self.__circuit_spec"],
+    ensures={
+        "rewritten": f"len({_S}) == 4 and isinstance({_S}[0], PhaseShifter) and isinstance({_S}[1], ModeSwaps) and isinstance({_S}[2], BeamSplitter) and isinstance({_S}[3], ModeSwaps) "
+                     f"and abs({_S}[2].mode_2 - {_S}[2].mode_1) == 1",
+        # the rewritten components are new objects but hold the user's Parameter objects themselves
+        "parameters_still_the_users": f"{_S}[0].phi is old({_S}[0].phi) and {_S}[2].reflectivity is old({_S}[1].reflectivity) and fresh_ref({_S}[0]) and fresh_ref({_S}[2])",
+        "old_components_untouched": f"old({_S}[1]).mode_2 == old({_S}[1].mode_2) and old({_S}[1]).mode_1 == old({_S}[1].mode_1) and old({_S}[1]).reflectivity is old({_S}[1].reflectivity)",
+    },
+    raises={}, props=["C09", "C10"],
+    inline=["get_all_params", "unpack_circuit_spec", "convert_non_adj_beamsplitters"],
+)
+REMOVE_NONADJ.no_callee = True
+REMOVE_NONADJ.label = "parameters shared with the rewritten spec"
+CONTRACTS += [REMOVE_NONADJ]
+
+
+def _circuit_swaps(ex, name):
+    """Circuit with spec [swap a<->b, PhaseShifter(Parameter), swap c<->d]"""
+    import z3
+    from vf.pyvc.values import CDict, CList, Obj
+    sp = f"{name}.__circuit_spec"
+    def sw(i):
+        a, b = z3.Int(f"sw{i}_a"), z3.Int(f"sw{i}_b")
+        return ex.alloc(Obj("ModeSwaps", (("swaps", ex.alloc(CDict(((a, b), (b, a))), f"{sp}[{i}].swaps")),)), f"{sp}[{i}]")
+    ps = ex.alloc(Obj("PhaseShifter", (("mode", z3.Int(f"{sp}[1].mode")), ("phi", ex.make(f"{sp}[1].phi", _PARAM, f"{sp}[1].phi")))), f"{sp}[1]")
+    spec = ex.alloc(CList((sw(0), ps, sw(2))), sp)
+    f = lambda a, t: ex.make(f"{name}.{a}", t, f"{name}.{a}")       # noqa: E731
+    return ex.alloc(Obj("Circuit", (("_Circuit__n_modes", z3.Int(f"{name}.__n_modes")), ("_Circuit__internal_modes", f("__internal_modes", "list[int]")),
+                                     ("_Circuit__in_heralds", f("__in_heralds", "dict[int,int]")), ("_Circuit__out_heralds", f("__out_heralds", "dict[int,int]")),
+                                     ("_Circuit__external_in_heralds", f("__external_in_heralds", "dict[int,int]")),
+                                     ("_Circuit__external_out_heralds", f("__external_out_heralds", "dict[int,int]")), ("_Circuit__circuit_spec", spec))), name)
+
+
+_circuit_swaps.label = "Circuit [swap, PS(Parameter), swap]"
+_BLOCKED = f"({_S}[1].mode == sw2_a or {_S}[1].mode == sw2_b)"
+COMPRESS_METHOD = Contract(
+    target=f"{CIRC}:Circuit.compress_mode_swaps",
+    types={"self": _circuit_swaps, "sw0_a": "int", "sw0_b": "int", "sw2_a": "int", "sw2_b": "int"},
+    requires=["sw0_a != sw0_b", "sw2_a != sw2_b", "sw0_a >= 0 and sw0_b >= 0 and sw2_a >= 0 and sw2_b >= 0"],
+    modifies=["self.__circuit_spec"],
+    ensures={
+        "not_longer": f"len({_S}) <= 3",
+        "merged_iff_free": f"len({_S}) == (3 if old{_BLOCKED} else 2)",
+        # the phase shifter of the rewritten spec is a new object holding the user's Parameter object itself
+        "parameter_still_the_users": f"implies(old{_BLOCKED}, {_S}[1].phi is old({_S}[1].phi) and fresh_ref({_S}[1])) and "
+                                     f"implies(not old{_BLOCKED}, {_S}[1].phi is old({_S}[1].phi) and fresh_ref({_S}[1]))",
+        "old_components_untouched": f"len(old({_S}[0]).swaps) == 2 and old({_S}[0]).swaps[sw0_a] == sw0_b and len(old({_S}[2]).swaps) == 2",
+    },
+    raises={}, props=["C09", "C10"],
+    inline=["get_all_params", "unpack_circuit_spec", "compress_mode_swaps", "combine_mode_swap_dicts"],
+)
+COMPRESS_METHOD.no_callee = True
+COMPRESS_METHOD.label = "parameters shared with the rewritten spec"
+CONTRACTS += [COMPRESS_METHOD]
